@@ -23,9 +23,9 @@ Lemma rp_dup_by_computation : forall l, rp_nodupb l = false -> ~ NoDup l.
 Proof. intros l H Hn. apply rp_nodupb_spec in Hn. congruence. Qed.
 
 (* message shorthands *)
-Definition rp_g (n : Z) : rp_msg := Build_rp_msg n Genuine EchoNone.   (* genuine *)
-Definition rp_ge (n : Z) : rp_msg := Build_rp_msg n Genuine EchoOk.    (* genuine, valid Echo *)
-Definition rp_f (n : Z) : rp_msg := Build_rp_msg n Forged EchoNone.    (* forged, claims PIV n *)
+Definition rp_g (n : Z) : rp_msg := Build_rp_msg n RpGenuine RpEchoNone.   (* genuine *)
+Definition rp_ge (n : Z) : rp_msg := Build_rp_msg n RpGenuine RpEchoOk.    (* genuine, valid Echo *)
+Definition rp_f (n : Z) : rp_msg := Build_rp_msg n RpForged RpEchoNone.    (* forged, claims PIV n *)
 
 (* the variants with exactly one repair missing *)
 Definition rp_no_bitidx : rp_variant := Build_rp_variant false true true true true.
@@ -57,10 +57,10 @@ Proof. exists [rp_ge 10; rp_g 8; rp_g 10]. apply rp_dup_by_computation. vm_compu
 Theorem rp_orig_forgery_leaves_trace_refuted :
   exists h m g,
     let s := snd (rp_run rp_orig 32 true rp_init h) in
-    rp_m_auth m = Forged /\ rp_m_auth g = Genuine /\
-    fst (rp_recv rp_orig 32 true s g) = Accept /\
+    rp_m_auth m = RpForged /\ rp_m_auth g = RpGenuine /\
+    fst (rp_recv rp_orig 32 true s g) = RpAccept /\
     rp_obs (snd (rp_recv rp_orig 32 true s m)) <> rp_obs s /\
-    fst (rp_recv rp_orig 32 true (snd (rp_recv rp_orig 32 true s m)) g) = RejReplay.
+    fst (rp_recv rp_orig 32 true (snd (rp_recv rp_orig 32 true s m)) g) = RpRejReplay.
 Proof.
   exists [rp_ge 0], (rp_f 50), (rp_g 1). vm_compute.
   repeat split; try reflexivity. intro H; discriminate H.
@@ -77,7 +77,7 @@ Proof. exists [rp_ge 1; rp_g 100]. vm_compute. reflexivity. Qed.
 Theorem rp_no_bitidx_refuted :
   exists h, ~ NoDup (rp_accepted rp_no_bitidx 32 false rp_init h) /\
             fst (rp_run rp_no_bitidx 32 false rp_init (h ++ [rp_g 6])) =
-              [Accept; Accept; Accept; RejReplay].
+              [RpAccept; RpAccept; RpAccept; RpRejReplay].
 Proof.
   exists [rp_g 5; rp_g 7; rp_g 5]. split.
   - apply rp_dup_by_computation. vm_compute. reflexivity.
@@ -88,7 +88,7 @@ Qed.
    never-seen 65 look replayed after 1, 2, 66 *)
 Theorem rp_no_shguard_refuted :
   exists h, rp_undef (snd (rp_run rp_no_shguard 32 false rp_init h)) = true /\
-            fst (rp_run rp_no_shguard 32 false rp_init h) = [Accept; Accept; Accept; RejReplay].
+            fst (rp_run rp_no_shguard 32 false rp_init h) = [RpAccept; RpAccept; RpAccept; RpRejReplay].
 Proof. exists [rp_g 1; rp_g 2; rp_g 66; rp_g 65]. vm_compute. split; reflexivity. Qed.
 
 Theorem rp_no_nooverwrite_refuted :
@@ -110,12 +110,12 @@ Proof. exists [rp_g 5; rp_g 5]. apply rp_dup_by_computation. vm_compute. reflexi
 Example rp_fixed_example :
   fst (rp_run rp_fixed 32 false rp_init
          [rp_g 5; rp_g 7; rp_g 5; rp_g 6; rp_g 6; rp_f 9; rp_g 8; rp_g 100; rp_g 37; rp_g 36]) =
-  [Accept; Accept; RejReplay; Accept; RejReplay; RejDecrypt; Accept; Accept; RejReplay; RejReplay].
+  [RpAccept; RpAccept; RpRejReplay; RpAccept; RpRejReplay; RpRejDecrypt; RpAccept; RpAccept; RpRejReplay; RpRejReplay].
 Proof. vm_compute. reflexivity. Qed.
 
 Example rp_fixed_example_b12 :
   fst (rp_run rp_fixed 4 true rp_init
          [rp_g 3; rp_f 4; rp_ge 5; rp_ge 5; rp_g 3; rp_g 2; rp_g 1; rp_g 0; rp_g 70; rp_g 69]) =
-  [RejChallenge; RejDecrypt; Accept; RejReplay; Accept; Accept; RejReplay; RejReplay; Accept;
-   Accept].
+  [RpRejChallenge; RpRejDecrypt; RpAccept; RpRejReplay; RpAccept; RpAccept; RpRejReplay; RpRejReplay; RpAccept;
+   RpAccept].
 Proof. vm_compute. reflexivity. Qed.
